@@ -248,12 +248,14 @@ def make_result(phase, backend, mode, via, n_jobs, pbar, values, n, choices, out
         outcome = ("ok", mode, values, n)  # out == reference(mode, values, n)
     return Result(outcome=outcome, nontrivial=applied, validated=validated, violation=viol,
                   sample=sample, evaluations=evaluations,
-                  outcome_class=("ok" if kind is None else kind) + ":" + path_name(mode, n_jobs, n, choices))
+                  outcome_class=f"{phase}|{'ok' if kind is None else kind}|{path_name(mode, n_jobs, n, choices)}")
 
 
 # ----------------------------- choice trees -----------------------------
 
 STOP = "."
+NJ = (1, 2, 3, 16)
+PB = (None, "x")
 
 
 def token_choices(tokens, n):
@@ -264,27 +266,72 @@ def token_choices(tokens, n):
     return S.devs_to_choices(toks)
 
 
-def virtual_tree(modes, vias, n_jobs_list, pbars, values, lengths, max_dev, named=()):
-    """levels: mode, via, n_jobs, pbar, values, N, then the schedule as deviation tokens.
-    max_dev(N) -> max number of deviations (None = all N! orders)."""
-    head = [list(modes), list(vias), list(n_jobs_list), list(pbars), list(values), list(lengths)]
+def phase(name, lengths, max_dev, *, modes=MODES, vias=("arg",), n_jobs=NJ, pbars=PB, values=VALUES,
+          named=S.NAMED_ORDERS, pickle=True, exec_mode="shared"):
+    """One family of the virtual exploration.  max_dev: max deviations per schedule
+    (None = every completion order)."""
+    return {"name": name, "head": [list(modes), list(vias), list(n_jobs), list(pbars), list(values), list(lengths)],
+            "max_dev": max_dev, "named": tuple(named), "pickle": pickle, "exec_mode": exec_mode}
+
+
+def virtual_phases(quick):
+    """quick keeps every input shape everywhere but thins n_jobs / values out on the long
+    lists (under the virtual scheduler n_jobs 2, 3 and 16 take the same code path)."""
+    slim = dict(n_jobs=(1, 2, 16), values=("id",)) if quick else {}
+    ph = [
+        # every completion order, N = 0..6, tasks/results cross the cloudpickle boundary
+        phase("perm-N0..6-pickled", range(0, 7), None, named=()),
+        phase("perm-N0..%d-pickled-global-n_jobs" % (4 if quick else 6), range(0, 5 if quick else 7), None,
+              vias=("global",), named=()),
+        # every job in a fresh fork ("isolated" execution mode of the scheduler)
+        phase("perm-N0..3-isolated", range(0, 4), None, modes=("list", "dict:str"), n_jobs=(2,),
+              pbars=(None,), values=("id",), named=(), exec_mode="isolated"),
+        # <= 2 deviations + named orders on longer lists (no pickling: ~10^6 schedules)
+        phase("dev2-N7,8", (7, 8), 2, pickle=False),
+        phase("dev2-N16,17", (16, 17), 2, pickle=False, **slim),
+        # the same with the pickle boundary: <= 1 deviation + named orders
+        phase("dev1-N7..17-pickled", (7, 8, 16, 17), 1, **slim),
+    ]
+    if quick:
+        ph += [phase("dev1-N64", (64,), 1, pickle=False, **slim),
+               phase("named-N64-pickled", (64,), 0, **slim)]
+    else:
+        ph += [phase("dev1-N64", (64,), 1, vias=("arg", "global"), pickle=False),
+               phase("dev1-N32..64-pickled", (32, 33, 64), 1)]
+    return ph
+
+
+def heavy_phases():
+    """thorough only: <= 2 deviations on 32/33/64 jobs for a reduced set of combinations."""
+    return [phase("dev2-N32,33", (32, 33), 2, n_jobs=(2, 16), pbars=(None,), values=("id",), pickle=False),
+            phase("dev2-N64", (64,), 2, modes=("list", "dict:str", "generator_unordered", "generator"),
+                  n_jobs=(1, 16), pbars=(None,), values=("id",), pickle=False)]
+
+
+def virtual_tree(phases):
+    """levels: phase, mode, via, n_jobs, pbar, values, N, then the schedule written as an
+    increasing list of deviation tokens (mc.sched.deviation_menu), closed by STOP, or one
+    named order."""
+    by_name = {ph["name"]: ph for ph in phases}
 
     def tree(p):
-        if len(p) < 6:
-            return head[len(p)]
-        mode, via, n_jobs, pbar, vals, n = p[:6]
-        toks = p[6:]
+        if not p:
+            return [ph["name"] for ph in phases]
+        ph = by_name[p[0]]
+        if len(p) < 7:
+            return ph["head"][len(p) - 1]
+        mode, via, n_jobs, pbar, vals, n = p[1:7]
+        toks = p[7:]
         if not has_menu(mode, n_jobs, n):
             return None  # the order is fixed by contract / by the serial shortcut
         if toks and (toks[-1] == STOP or isinstance(toks[-1], str)):
             return None
-        k = max_dev(n)
-        k = n - 1 if k is None else k
+        k = n - 1 if ph["max_dev"] is None else ph["max_dev"]
         if len(toks) >= k:
             return None
         menu = [STOP] + S.deviation_menu(n, toks)
         if not toks:
-            for name in named:
+            for name in ph["named"]:
                 if S.n_deviations(S.order_to_choices(S.named_order(name, n))) > k:
                     menu.append("@" + name)
         return menu
@@ -292,15 +339,18 @@ def virtual_tree(modes, vias, n_jobs_list, pbars, values, lengths, max_dev, name
     return tree
 
 
-def virtual_body(phase, pickle, exec_mode="shared"):
+def virtual_body(phases):
+    by_name = {ph["name"]: ph for ph in phases}
+
     def body(cfg):
-        mode, via, n_jobs, pbar, vals, n = cfg[:6]
-        choices = token_choices(cfg[6:], n)
-        out, sch = run_virtual(mode, via, n_jobs, pbar, vals, n, choices, pickle, exec_mode)
+        ph = by_name[cfg[0]]
+        mode, via, n_jobs, pbar, vals, n = cfg[1:7]
+        choices = token_choices(cfg[7:], n)
+        out, sch = run_virtual(mode, via, n_jobs, pbar, vals, n, choices, ph["pickle"], ph["exec_mode"])
         # virtual executions are compared with the oracle, but by the project's counting
         # rule (DESIGN 3.6) only real-backend conformance replays count as "validated"
-        return make_result(phase, "virtual", mode, via, n_jobs, pbar, vals, n, choices, out,
-                           sch.trace, pickle, exec_mode, validated=False)
+        return make_result(ph["name"], "virtual", mode, via, n_jobs, pbar, vals, n, choices, out,
+                           sch.trace, ph["pickle"], ph["exec_mode"], validated=False)
 
     return body
 
@@ -350,20 +400,35 @@ def conformance_battery(quick):
 _WARM: set = set()
 
 
-def _warm(n_jobs):
+def _prepare_real_backend(n_jobs):
+    """Start the loky workers for this worker count before anything is timed.  The module
+    accelforge.util.parallel is registered for pickling *by value*: the helper `_dict_job`
+    then travels to the workers as code (like the closure `f` of the list path already
+    does), so the workers never import the accelforge package (2-3 s each, 16 workers)."""
+    if not _WARM:
+        import cloudpickle
+
+        cloudpickle.register_pickle_by_value(_pmod())
     if n_jobs not in _WARM:
-        S.warm_real_backend(n_jobs, modules=("accelforge.util.parallel", "mc.checks.c32"))
+        S.warm_real_backend(n_jobs, modules=("mc.checks.c32",))
         _WARM.add(n_jobs)
 
 
 def run_conformance(mode, via, n_jobs, pbar, values, n, order, step=S.DEFAULT_STEP):
-    _warm(n_jobs)
+    _prepare_real_backend(n_jobs)
     choices = S.order_to_choices(order)
     # strict=False: for return_as="generator" the virtual site has no menu while the real
     # backend can still be forced into the completion order
     sch = S.Schedule({0: choices} if choices else {}, strict=False)
     return S.conformance_run(lambda: call_parallel(mode, via, n_jobs, pbar, values, n), sch,
-                             n_jobs=(n_jobs if via == "global" else None), step=step, retries=2)
+                             n_jobs=(n_jobs if via == "global" else None), step=step, retries=3)
+
+
+class _Rec:
+    """SiteRecord.to_json() dict with attribute access (what make_result needs)."""
+
+    def __init__(self, d):
+        self.__dict__.update(d)
 
 
 def conformance_body(cfg):
@@ -396,24 +461,30 @@ def conformance_body(cfg):
     return res
 
 
-class _Rec:
-    """SiteRecord.to_json() dict with attribute access (what make_result needs)."""
-
-    def __init__(self, d):
-        self.__dict__.update(d)
-
-
 def free_body(cfg):
     """Free-running real joblib (the original Parallel, nothing installed)."""
     mode, n_jobs, pbar, values, n = cfg
+    _prepare_real_backend(n_jobs)
     out = call_parallel(mode, "arg", n_jobs, pbar, values, n)
     return make_result("free-running", "real-free", mode, "arg", n_jobs, pbar, values, n, (), out,
                        [], True, "loky", validated=False)
 
 
-def list_tree(items):
-    items = list(items)
+def real_items(quick):
+    """Conformance replays and free-running runs, by growing worker count (2, 3, 16) so
+    that the reusable loky executor only ever grows."""
+    battery = conformance_battery(quick)
+    free_n = [0, 2, 5, 17, 64] if quick else [0, 1, 2, 3, 5, 8, 17, 64]
+    free = [(mode, nj, pb, vals, n) for nj in (2, 16) for mode in MODES
+            for pb in ([None] if quick else PB) for vals in (["id"] if quick else VALUES) for n in free_n]
+    items = []
+    for nj in (2, 3, 16):
+        items += [("conformance", it) for it in battery if it[2] == nj]
+        items += [("free", it) for it in free if it[1] == nj]
+    return items, len(battery), len(free)
 
+
+def real_tree(items):
     def tree(p):
         if len(p) == 0:
             return list(range(len(items)))
@@ -424,8 +495,9 @@ def list_tree(items):
     return tree
 
 
-def _unwrap(body):
-    return lambda cfg: body(cfg[1])
+def real_body(cfg):
+    kind, item = cfg[1]
+    return conformance_body(item) if kind == "conformance" else free_body(item)
 
 
 # ----------------------------- run -----------------------------
@@ -434,91 +506,52 @@ def run(ctx):
     q = ctx.quick
     P = _pmod()  # imports accelforge once, before forking
     assert P.Parallel.__module__.startswith("joblib"), "accelforge.util.parallel.Parallel is not joblib's"
-    NJ = [1, 2, 3, 16]
-    PB = [None, "x"]
-    named = S.NAMED_ORDERS
 
-    # 1. every completion order, N = 0..6, cloudpickle boundary on
-    ctx.explore("perm-N0..6-pickled",
-                virtual_tree(MODES, ["arg", "global"], NJ, PB, VALUES, range(0, 7), lambda n: None),
-                virtual_body("perm", True), shard_depth=6, distinct_by_construction=True)
-    # 2. isolated execution (every job in a fresh fork), every order of N <= 4
-    ctx.explore("perm-N0..4-isolated",
-                virtual_tree(["list", "dict:str", "generator_unordered"], ["arg"], [2], [None], ["id"],
-                             range(0, 5), lambda n: None),
-                virtual_body("perm-isolated", True, "isolated"), shard_depth=6,
+    phases = virtual_phases(q)
+    ctx.explore("virtual-scheduler", virtual_tree(phases), virtual_body(phases), shard_depth=7,
                 distinct_by_construction=True)
-    # 3. <= 2 deviations + named orders on longer lists (no pickling: 10^6 schedules)
-    lengths2 = [7, 8, 16, 17]
-    ctx.explore("dev2-N7..17",
-                virtual_tree(MODES, ["arg"], NJ, PB, VALUES, lengths2, lambda n: 2, named),
-                virtual_body("dev2", False), shard_depth=6, distinct_by_construction=True)
-    if q:
-        ctx.explore("dev1-N64",
-                    virtual_tree(MODES, ["arg"], NJ, PB, VALUES, [64], lambda n: 1, named),
-                    virtual_body("dev1-N64", False), shard_depth=6, distinct_by_construction=True)
-    else:
-        lengths2 = lengths2 + [32, 33, 64]
-        ctx.explore("dev2-N32,33",
-                    virtual_tree(MODES, ["arg"], [2, 16], [None], ["id"], [32, 33], lambda n: 2, named),
-                    virtual_body("dev2", False), shard_depth=7, distinct_by_construction=True)
-        ctx.explore("dev2-N64",
-                    virtual_tree(["list", "dict:str", "generator_unordered", "generator"], ["arg"], [1, 16],
-                                 [None], ["id"], [64], lambda n: 2, named),
-                    virtual_body("dev2-N64", False), shard_depth=7, distinct_by_construction=True)
-        ctx.explore("dev1-N64-all-combos",
-                    virtual_tree(MODES, ["arg", "global"], NJ, PB, VALUES, [64], lambda n: 1, named),
-                    virtual_body("dev1-N64", False), shard_depth=6, distinct_by_construction=True)
-    # 4. the same with the pickle boundary: <= 1 deviation + named orders
-    lengths1 = [7, 8, 16, 17] if q else [7, 8, 16, 17, 32, 33, 64]
-    ctx.explore("dev1-pickled",
-                virtual_tree(MODES, ["arg"], NJ, PB, VALUES, lengths1, lambda n: 1, named),
-                virtual_body("dev1-pickled", True), shard_depth=6, distinct_by_construction=True)
-    if q:
-        ctx.explore("named-N64-pickled",
-                    virtual_tree(MODES, ["arg"], NJ, PB, VALUES, [64], lambda n: 0, named),
-                    virtual_body("named-N64-pickled", True), shard_depth=6, distinct_by_construction=True)
+    if not q:
+        heavy = heavy_phases()
+        ctx.explore("virtual-scheduler-2dev-N32..64", virtual_tree(heavy), virtual_body(heavy),
+                    shard_depth=8, distinct_by_construction=True)
+        phases = phases + heavy
     n_virtual = ctx.total.evaluations
     n_virtual_nontrivial = ctx.total.nontrivial
 
-    # 5. real joblib / loky, in this process, after the last fork of the explorer
-    battery = conformance_battery(q)
-    battery.sort(key=lambda it: -it[2])  # group by worker count: 16, 3, 2 (one executor resize each)
-    st = ctx.explore("conformance-real-loky", list_tree(battery), _unwrap(conformance_body),
-                     shard_depth=1, workers=1, distinct_by_construction=True)
+    # real joblib / loky: in this process, serially, after the last fork of the explorer
+    # (seed=0: the order of these items only matters for the executor's size changes)
+    items, n_battery, n_free = real_items(q)
+    st = ctx.explore("real-joblib-loky", real_tree(items), real_body, shard_depth=1, workers=1,
+                     seed=0, distinct_by_construction=True)
     n_conf = st.validated
-    free_n = [0, 2, 5, 17, 64] if q else [0, 1, 2, 3, 5, 8, 17, 64]
-    free = [(mode, nj, pb, vals, n) for nj in (2, 16) for mode in MODES
-            for pb in ([None] if q else PB) for vals in (["id"] if q else VALUES) for n in free_n]
-    sf = ctx.explore("free-running-real-loky", list_tree(free), _unwrap(free_body),
-                     shard_depth=1, workers=1, distinct_by_construction=True)
 
     ctx.extra_cov["conformance_replays_on_real_joblib"] = n_conf
-    ctx.extra_cov["conformance_battery_size"] = len(battery)
+    ctx.extra_cov["conformance_battery_size"] = n_battery
     ctx.extra_cov["virtual_schedule_executions_compared_with_oracle"] = n_virtual
     ctx.extra_cov["virtual_schedules_with_permuted_delivery"] = n_virtual_nontrivial
-    ctx.extra_cov["free_running_real_joblib_runs"] = sf.configs
-    ctx.note(f"{n_conf} of {len(battery)} conformance replays forced the intended completion order on the real "
-             f"joblib/loky backend (60 ms sleep steps, n_jobs 16/3/2) and agreed with the virtual scheduler and "
+    ctx.extra_cov["free_running_real_joblib_runs"] = n_free
+    ctx.note(f"{n_conf} of {n_battery} conformance replays forced the intended completion order on the real "
+             f"joblib/loky backend (60 ms sleep steps, n_jobs 2/3/16) and agreed with the virtual scheduler and "
              f"the oracle; only these are counted in traces_validated_against_impl")
     ctx.note(f"{n_virtual} executions of the real parallel() under the virtual scheduler were compared with the "
-             f"oracle ({n_virtual_nontrivial} with a permuted delivery order); {sf.configs} free-running runs on "
+             f"oracle ({n_virtual_nontrivial} with a permuted delivery order); {n_free} free-running runs on "
              f"real loky (n_jobs 2 and 16) as a smoke test of the pickling boundary")
-    if n_conf < len(battery):
-        ctx.note(f"{len(battery) - n_conf} conformance replays did not reach the intended completion order even "
-                 f"after two step doublings (timing noise); their results still satisfied the oracle but they "
+    ctx.note("real-backend runs ship accelforge.util.parallel._dict_job by value (cloudpickle."
+             "register_pickle_by_value) so that loky workers need not import the accelforge package")
+    if n_conf < n_battery:
+        ctx.note(f"{n_battery - n_conf} conformance replays did not reach the intended completion order even "
+                 f"after three step doublings (timing noise); their results still satisfied the oracle but they "
                  f"are not counted as validated")
-    ctx.bound(all_orders_up_to_N=6, schedules_per_combination_N0_6=sum(S.count_site_schedules(n) for n in range(7)),
-              two_deviation_lengths=lengths2,
-              one_deviation_lengths=[64] if q else [],
-              pickled_one_deviation_lengths=lengths1, named_orders=list(named),
-              schedules_per_site_2dev={str(n): S.count_site_schedules(n, 2) for n in lengths2},
-              n_jobs=NJ, n_jobs_source=["argument", "set_n_parallel_jobs (N<=6" + (")" if q else " and N=64)")],
-              pbar=["None", "x"], modes=list(MODES), isolated_exec_all_orders_up_to_N=4,
-              conformance_sleep_step_s=S.DEFAULT_STEP,
-              dev2_reduced_combinations="quick: N=64 only with <=1 deviation + named orders" if q
-              else "N=32,33: n_jobs {2,16}, pbar None, identifying values, all input shapes; N=64: n_jobs {1,16}, "
-                   "pbar None, identifying values, input shapes list / dict:str / generator_unordered / generator")
+    ctx.bound(all_completion_orders_up_to_N=6,
+              schedules_per_combination_N0_6=sum(S.count_site_schedules(n) for n in range(7)),
+              phases={ph["name"]: {"N": ph["head"][5], "max_deviations": ph["max_dev"], "named_orders": list(ph["named"]),
+                                   "modes": ph["head"][0], "n_jobs_via": ph["head"][1], "n_jobs": ph["head"][2],
+                                   "pbar": [str(x) for x in ph["head"][3]], "values": ph["head"][4],
+                                   "pickle": ph["pickle"], "exec_mode": ph["exec_mode"],
+                                   "schedules_per_site": {str(n): S.count_site_schedules(n, ph["max_dev"])
+                                                          for n in ph["head"][5]}}
+                      for ph in phases},
+              conformance_sleep_step_s=S.DEFAULT_STEP, conformance_n_jobs=[2, 3, 16], free_running_n_jobs=[2, 16])
 
 
 # ----------------------------- replay -----------------------------
@@ -531,16 +564,19 @@ def replay(ctx, rec):
         out, sch = run_virtual(mode, via, n_jobs, pbar, values, n, tuple(c["choices"]), c["pickle"],
                                c["exec_mode"])
         obs = {"result": _jsonable_out(out), "delivery_order": sch.orders().get(0)}
-    elif c["backend"] == "real-forced":
-        r = run_conformance(mode, via, n_jobs, pbar, values, n, c["order"], step=c.get("step", S.DEFAULT_STEP))
-        out = r["real"]
-        obs = {"result": _jsonable_out(out), "virtual": _jsonable_out(r["virtual"]),
-               "achieved": r["achieved"], "equal": r["equal"]}
-        if oracle(mode, out, exp) is None and r["achieved"] and not r["equal"]:
-            return {"observed": obs, "expected": "real == virtual", "violation": True}
     else:
-        out = call_parallel(mode, "arg", n_jobs, pbar, values, n)
-        obs = {"result": _jsonable_out(out)}
+        if c["backend"] == "real-forced":
+            r = run_conformance(mode, via, n_jobs, pbar, values, n, c["order"], step=c.get("step", S.DEFAULT_STEP))
+            out = r["real"]
+            if oracle(mode, out, exp) is None and oracle(mode, r["virtual"], exp) is None \
+                    and r["achieved"] and not r["equal"]:
+                return {"observed": {"real": _jsonable_out(out), "virtual": _jsonable_out(r["virtual"])},
+                        "expected": "real == virtual", "violation": True}
+        else:
+            _prepare_real_backend(n_jobs)
+            out = call_parallel(mode, "arg", n_jobs, pbar, values, n)
+        shown = sorted(out, key=repr) if mode == "generator_unordered" and isinstance(out, list) else out
+        obs = {"result": _jsonable_out(shown)}  # timing-dependent details are left out
     kind = oracle(mode, out, exp)
     return {"observed": obs, "expected": _jsonable_out(dict(exp) if mode.startswith("dict:") else exp),
             "kind": kind, "violation": kind is not None}
